@@ -150,6 +150,23 @@ def space(tier):
                 "flag": rng.choice([None, False])}
     sp.add("all_ids_values", 256 * len(KNOWN_IDS) if tier == "thorough" else 256 * 4, sweep, exhaustive=(tier == "thorough"))
 
+    npairs = len(KNOWN_IDS) ** 2
+
+    def pairs(j, rng):
+        # every ordered pair of known ids, both "on", split between them: rules that look at two records at once
+        # (one capability superseding another) must give the same answer in one response and across pages
+        a = KNOWN_IDS[(j % npairs) // len(KNOWN_IDS)]
+        b = KNOWN_IDS[(j % npairs) % len(KNOWN_IDS)]
+        v = [1, 1, 2, 3][(j // npairs) % 4] if j >= npairs else 1
+
+        def val(cid, x):
+            return (bytes([x]) + bytes(6 if cid == 0x0225 else 0)).hex()
+        recs = [[a, val(a, v)], [b, val(b, 1)]]
+        if rng.random() < 0.5:
+            recs.insert(1, rand_record(rng))
+        return {"config": {"version": 2}, "records": recs, "splits": list(range(len(recs) + 1)), "flag": None}
+    sp.add("ordered_pairs", npairs * (1 if tier == "quick" else 4), pairs, exhaustive=True)
+
     def rnd(j, rng):
         n = rng.randint(1, 12)
         recs = [rand_record(rng) for _ in range(n)]
